@@ -166,6 +166,55 @@ theorem fanout_no_field_race (hN : cfg.svcs.Nodup) (hR : Reach cfg s) : ¬ RaceA
   · exact hno ⟨hread _ he₂ rfl, hexit _ he₁ rfl⟩
   · have h1 := hret _ he₂ rfl; have h2 := hexit _ he₁ rfl; rw [h1] at h2; cases h2
 
+/-- **the outcome does not depend on the schedule** (`_partial`: everything but the identity of the error).  Two
+    returned states of the same call — reached by ANY two schedules, spawn orders, completion orders — agree on whether an
+    error is returned, on whether the services were replaced, and on every service value; when at most one service's
+    function fails they also return the same error.  The full-strength statement (the same error always) is refuted in
+    `Neg/C19.lean` (`fanout_error_depends_on_schedule`): with two failing services the schedule decides which is first. -/
+theorem fanout_schedule_independent_partial (hN : cfg.svcs.Nodup) {s₁ s₂ : St} (h₁ : Reach cfg s₁) (h₂ : Reach cfg s₂)
+    (t₁ : terminal s₁) (t₂ : terminal s₂) :
+    (s₁.firstErr = none ↔ s₂.firstErr = none) ∧
+    (s₁.services.isSome = s₂.services.isSome) ∧
+    (∀ f₁ f₂, s₁.services = some f₁ → s₂.services = some f₂ → ∀ v, f₁ v = f₂ v) ∧
+    ((∀ v w, v ∈ cfg.svcs → w ∈ cfg.svcs → cfg.fn v = none → cfg.fn w = none → v = w) → s₁.firstErr = s₂.firstErr) := by
+  have e₁ := fanout_first_error hN h₁ t₁
+  have e₂ := fanout_first_error hN h₂ t₂
+  have hiff : s₁.firstErr = none ↔ s₂.firstErr = none := e₁.2.2.1.trans e₂.2.2.1.symm
+  have hsv : ∀ {s : St}, Reach cfg s → terminal s → (s.services.isSome = true ↔ s.firstErr = none) := by
+    intro s h t
+    have e := fanout_first_error hN h t
+    constructor
+    · intro hs
+      apply Classical.byContradiction
+      intro hne
+      rw [e.2.2.2 hne] at hs; cases hs
+    · intro he
+      obtain ⟨f, hf, _⟩ := fanout_complete hN h t he
+      rw [hf]; rfl
+  refine ⟨hiff, ?_, ?_, ?_⟩
+  · have a := hsv h₁ t₁
+    have b := hsv h₂ t₂
+    cases x : s₁.services.isSome <;> cases y : s₂.services.isSome <;> simp_all
+  · intro f₁ f₂ hf₁ hf₂ v
+    have he₁ : s₁.firstErr = none := (hsv h₁ t₁).mp (by rw [hf₁]; rfl)
+    have he₂ : s₂.firstErr = none := (hsv h₂ t₂).mp (by rw [hf₂]; rfl)
+    obtain ⟨g₁, hg₁, hv₁⟩ := fanout_complete hN h₁ t₁ he₁
+    obtain ⟨g₂, hg₂, hv₂⟩ := fanout_complete hN h₂ t₂ he₂
+    rw [hf₁] at hg₁; rw [hf₂] at hg₂
+    injection hg₁ with hg₁; injection hg₂ with hg₂
+    subst hg₁; subst hg₂
+    rw [hv₁ v, hv₂ v]
+  · intro huniq
+    cases x : s₁.firstErr with
+    | none => exact (hiff.mp x).symm
+    | some v =>
+      cases y : s₂.firstErr with
+      | none => have := hiff.mpr y; rw [x] at this; cases this
+      | some w =>
+        have a := e₁.2.1 v x
+        have b := e₂.2.1 w y
+        rw [huniq v w a.1 b.1 a.2 b.2]
+
 end CV.Fanout
 
 namespace CV.Interleave
